@@ -367,7 +367,11 @@ func runFault(id int, plan faultPlan, seed int) faultResult {
 	s.Start(ctx)
 	if quiet {
 		// no API activity while the burst is being served: consecutive failing calls must be RetryInterval apart
-		pollUntil(time.Duration(plan.K*plan.RI+1500)*time.Millisecond, func() bool {
+		budget := plan.K*plan.RI + 1500
+		if plan.K >= 100 {
+			budget += 3000 // a long outage: a back-off that grows first gets the time to show what it does next
+		}
+		pollUntil(time.Duration(budget)*time.Millisecond, func() bool {
 			q.mu.Lock()
 			defer q.mu.Unlock()
 			return q.counts[plan.Method] >= plan.Index+plan.K+2
@@ -585,6 +589,14 @@ func faultPlans(tier string) []faultPlan {
 		}
 	}
 	out = append(out, faultPlan{Kind: "random", Pct: 20, Err: "mixed"}, faultPlan{Kind: "random", Pct: 50, Err: "mixed"})
+	// ---- long unbroken outages: hundreds of consecutive failures with a short RetryInterval; the rate oracle
+	// (failing calls per RetryInterval window) holds from the first failure to the last
+	out = append(out, faultPlan{Kind: "burst", Method: "Size", Index: 2, K: 300, RI: 1},
+		faultPlan{Kind: "burst", Method: "Pop", Index: 1, K: 300, RI: 2},
+		faultPlan{Kind: "burst", Method: "Head", Index: 2, K: 200, RI: 1, Err: "deadline"})
+	if tier == "thorough" {
+		out = append(out, faultPlan{Kind: "burst", Method: "Size", Index: 2, K: 1500, RI: 2}, faultPlan{Kind: "burst", Method: "Pop", Index: 1, K: 1000, RI: 1})
+	}
 	return out
 }
 
